@@ -260,8 +260,12 @@ theorem domain_sound {r : NameRole} {n host w reduced ed d : Str} {isEmail isW :
 localhost / localdomain without `allow_subdomains` (what the unchanged code really does). -/
 theorem validateName_sound (r : NameRole) (n : Str)
     (hdn : r.allowTokenDisplayName = true → r.displayName ≠ [])
-    (h : validateName r n = true) : nameAllowed r n ∨ wildcardLocalhost r n := by
-  unfold validateName at h
+    (h0 : validateName r n = true) : nameAllowed r n ∨ wildcardLocalhost r n := by
+  have h : validateNameBody r n = true := by
+    unfold validateName at h0
+    simp only [Bool.and_eq_true] at h0
+    exact h0.2
+  unfold validateNameBody at h
   split at h
   · simp at h
   · rename_i r0 ed isEmail hes
